@@ -219,6 +219,34 @@ theorem C08_boxes (p : LAParams) (pageBB : BB) (hp : WfPage pageBB) (items : Lis
       cases hv : b.vertical <;> simp only [hv, box_key_v, box_key_h, Bool.false_eq_true, if_false, if_true] at hle ⊢ <;>
         grind
 
+/-- A text box only holds lines of its own class (horizontal box: horizontal lines). -/
+theorem C08_box_uniform (p : LAParams) (pageBB : BB) (hp : WfPage pageBB) (items : List Item) :
+    ∀ b ∈ boxesOf (analyze le p pageBB items), ∀ l ∈ b.lines, l.vertical = b.vertical := by
+  by_cases h : (items.filterMap Item.glyph?).isEmpty = true
+  · have : (analyze le p pageBB items).children = items.map Item.toChild := by simp [analyze, h]
+    intro b hb
+    exfalso
+    simp only [boxesOf, this, List.mem_filterMap, List.mem_map] at hb
+    obtain ⟨c, ⟨it, _, rfl⟩, hc⟩ := hb
+    cases it <;> simp [Item.toChild, Child.box?] at hc
+  · have s := stages le p pageBB items (by simpa using h)
+    have hspec := groupTextlines_spec p pageBB hp _ (nonEmpty_lines s)
+    have hun := groupTextlines_uniform p pageBB hp _ (nonEmpty_lines s)
+    rw [← s.hboxes] at hspec hun
+    intro b' hb' l hl
+    rw [boxesOf_stages s] at hb'
+    obtain ⟨b, hb, hs⟩ := box_origin hspec.2.1 hb'
+    have hlines : b'.lines = b.analyze.lines := by
+      have := congrArg Box.lines hs; simpa [strip_lines] using this
+    have hvert : b'.vertical = b.vertical := by
+      have := congrArg Box.vertical hs; simpa [strip, Box.analyze] using this
+    rw [hlines] at hl
+    have := (box_analyze_perm b).subset hl
+    simp only [List.mem_map] at this
+    obtain ⟨l0, hl0, rfl⟩ := this
+    rw [hvert]
+    exact hun b hb l0 hl0
+
 /-- **Numbering.**  The text boxes are numbered `0, 1, …, n−1` in output order - with the hierarchy
 (`IndexAssigner`) and, after the fix of the pinned code, also when `boxes_flow` is `None`. -/
 theorem C08_index (p : LAParams) (pageBB : BB) (hp : WfPage pageBB) (items : List Item) :
@@ -260,6 +288,28 @@ theorem C08_hierarchy (p : LAParams) (pageBB : BB) (hp : WfPage pageBB) (items :
   rw [s.groups, boxesOf_stages s]
   refine ⟨hfin.2.2.2.2.2, fun gs hgs => ⟨hfin.2.2.2.2.1 gs hgs, fun bf hbf g hg => ?_⟩⟩
   exact finalBoxes_groupsOK (le := le) p pageBB s.boxes bf hbf gs hgs g hg
+
+/-- The hierarchy has a single root (`group_textboxes` ends with one object in the plane). -/
+theorem C08_single_root (p : LAParams) (pageBB : BB) (items : List Item) :
+    ∀ gs, (analyze le p pageBB items).groups = some gs → gs.length ≤ 1 := by
+  intro gs hgs
+  by_cases h : (items.filterMap Item.glyph?).isEmpty = true
+  · simp [analyze, h] at hgs
+  · have s := stages le p pageBB items (by simpa using h)
+    rw [s.groups] at hgs
+    unfold finalBoxes at hgs
+    cases hbf : p.boxes_flow with
+    | none => simp [hbf] at hgs
+    | some bf =>
+      simp only [hbf, Option.some.injEq] at hgs
+      subst hgs
+      have hlen : ∀ (ns : List Node) (k : Nat), (analyzeGroups bf ns k).length = ns.length := by
+        intro ns
+        induction ns with
+        | nil => intro k; rfl
+        | cons n r ih => intro k; simp [analyzeGroups, ih]
+      rw [hlen]
+      exact groupTextboxes_single_root (le := le) pageBB _
 
 /-! ### text -/
 
